@@ -69,6 +69,13 @@ Plan genProbe(const std::string& prop, int tier, uint64_t batchSeed, uint64_t id
             if (r.chance(1, 3))
                 op.set("ilen", r.pick<int64_t>({0, 1, 0xFF, 0x7FFF, 0xFFFF, static_cast<int64_t>(r.below(70000))})).set("iwhich", static_cast<int64_t>(r.below(5)));
             if (r.chance(1, 4))
+            {
+                // two length fields with related values: the element ends 0..2 bytes before / at / behind the end of the payload
+                const int64_t room = op.get("len") - static_cast<int64_t>(wire::fixedSize(static_cast<wire::Kind>(kind)));
+                op.set("ilen", std::max<int64_t>(0, r.range(0, std::max<int64_t>(0, room)))).set("iwhich", static_cast<int64_t>(r.below(4)));
+                op.set("ilen2", std::max<int64_t>(0, room - op.get("ilen") - r.range(-2, 14))).set("iwhich2", op.get("iwhich") + 1 + static_cast<int64_t>(r.below(2)));
+            }
+            if (r.chance(1, 4))
                 op.set("p1o", r.range(0, 60)).set("p1v", static_cast<int64_t>(r.below(256)));
             if (r.chance(1, 6))
                 op.set("rawbody", 1);
